@@ -152,7 +152,9 @@ class PrinterBase:
             else:
                 m = dict()
                 for i in range(len(expr.operands)):
-                    m["typeof_0"] = self.get_type(expr.operands[i])
+                    m[f"typeof_{i}"] = self.get_type(expr.operands[i])
+                if "{typeof}" in tmpl:
+                    m["typeof"] = self.get_type(expr)
                 result = tmpl.format(*[self.tostring(operand) for operand in expr.operands], **m)
 
         assert expr.ref is not None
